@@ -30,8 +30,10 @@ def src_path(i):
 
 class World:
     def __init__(self, m, ctx, n, inputs, acyclic_only=False, allow_self=True, fail_budget=0, recursive=False, mode='Build',
-                 subdir=False, max_deps=None, threads=4, dup_deps=False):
+                 subdir=False, max_deps=None, threads=4, dup_deps=False, verbosity='Quiet', stderr_faults=0):
         self.m = m
+        self.verbosity = verbosity
+        self.stderr_faults = stderr_faults
         self.threads = threads
         self.dup_deps = dup_deps
         self.reported = {}        # i -> dependency list as reported (may name a dependency twice: `include x` twice, `after x` + `include x`)
@@ -153,14 +155,15 @@ class World:
     def data(self):
         return {'op': 'sched', 'n': self.n, 'inputs': list(self.inputs), 'deps': {str(k): v for k, v in self.deps.items()},
                 'events': list(self.events), 'failed': list(self.failed), 'mode': self.mode, 'recursive': getattr(self, 'recursive', False),
-                'subdir': self.subdir, 'threads': self.threads, 'reported': {str(k): v for k, v in self.reported.items()}}
+                'subdir': self.subdir, 'threads': self.threads, 'reported': {str(k): v for k, v in self.reported.items()},
+                'verbosity': self.verbosity, 'stderr_faults': self.stderr_faults}
 
 
-def mk_config(m, inputs, mode, recursive=False, threads=4):
+def mk_config(m, inputs, mode, recursive=False, threads=4, verbosity='Quiet'):
     modes = m.src.enums['Mode']
     verb = m.src.enums['Verbosity']
     return StructV('Config', (StrV(tuple(BASE)), StrV(()), VecV(tuple(StrV(tuple(i.encode() if isinstance(i, str) else i)) for i in inputs)),
-                              recursive, threads, EnumV('Mode', mode, modes.index(mode), ()), EnumV('Verbosity', 'Quiet', verb.index('Quiet'), ()), True))
+                              recursive, threads, EnumV('Mode', mode, modes.index(mode), ()), EnumV('Verbosity', verbosity, verb.index(verbosity), ()), True))
 
 
 def run_coordinator(m, ctx, w, recursive=False):
@@ -177,7 +180,11 @@ def run_coordinator(m, ctx, w, recursive=False):
     env.add_file(b'/bin/sh', b'')
     it.overrides[(None, 'preprocess')] = w.preprocess
     run = m.find_method('Txtpp', 'run')
-    cfg = mk_config(m, w.inputs, w.mode, recursive, w.threads)
+    cfg = mk_config(m, w.inputs, w.mode, recursive, w.threads, w.verbosity)
+    if w.stderr_faults:
+        env.clock_fork = True            # the throttled progress line is due at every update, or never
+        env.fault_budget = w.stderr_faults
+        env.fault_filter = lambda op, path: op == 'stderr'
     try:
         r = it.call_mir(run, [cfg])
     except BoundExceeded as b:
@@ -219,9 +226,9 @@ def requested_files(w):
 
 
 def h_sched(m, ctx, n, inputs, acyclic_only=False, allow_self=True, fail_budget=0, mode='Build', recursive=False, subdir=False,
-            max_deps=None, check_panics=False, threads=4, dup_deps=False):
+            max_deps=None, check_panics=False, threads=4, dup_deps=False, verbosity='Quiet', stderr_faults=0):
     w = World(m, ctx, n, inputs, acyclic_only, allow_self, fail_budget, mode=mode, subdir=subdir, max_deps=max_deps, threads=threads,
-              dup_deps=dup_deps)
+              dup_deps=dup_deps, verbosity=verbosity, stderr_faults=stderr_faults)
     w.recursive = recursive
     it, env, r = run_coordinator(m, ctx, w, recursive)
     ok_ = (r.idx == 0)
@@ -339,6 +346,11 @@ def jobs_c03(tier):
         js.append({'name': 'termination with a failing task n=%d threads=%d' % (n, th), 'harness': (H, 'h_sched'),
                    'params': {'n': n, 'inputs': ['.'], 'acyclic_only': True, 'allow_self': False, 'fail_budget': 1, 'max_deps': 0, 'threads': th},
                    'split': 16})
+    # the progress display cannot be written (stderr on a full disk / closed pipe): the run must still end, with the right verdict
+    for verb in ('Normal', 'Verbose'):
+        for n, inp, kw in ((2, ['.'], {'max_deps': 1}), (2, ['F0.txtpp'], {}), (3, ['.'], {'max_deps': 0})):
+            p = dict({'n': n, 'inputs': inp, 'acyclic_only': True, 'allow_self': False, 'verbosity': verb, 'stderr_faults': 1, 'threads': 2}, **kw)
+            js.append({'name': 'terminal writes fail (%s) n=%d inputs=%s' % (verb, n, ','.join(inp)), 'harness': (H, 'h_sched'), 'params': p, 'split': 16})
     js.append({'name': 'digraph n=2 dependency named twice', 'harness': (H, 'h_sched'),
                'params': {'n': 2, 'inputs': ['F0.txtpp', 'F1.txtpp'], 'allow_self': True, 'dup_deps': True}})
     js.append({'name': 'dag n=3 dependency named twice', 'harness': (H, 'h_sched'),
@@ -374,6 +386,13 @@ def jobs_c04(tier):
                 p['max_deps'] = 2
             js.append({'name': 'task failure n=%d inputs=%s' % (n, ','.join(inp)), 'harness': (H, 'h_sched'), 'params': p,
                        'split': 16 if n >= 3 else 1, 'max_steps': 4_000_000})
+    for verb in ('Normal', 'Verbose'):
+        js.append({'name': 'task failure while terminal writes fail (%s) n=2' % verb, 'harness': (H, 'h_sched'),
+                   'params': {'n': 2, 'inputs': ['.'], 'acyclic_only': True, 'allow_self': False, 'fail_budget': 1, 'max_deps': 1, 'verbosity': verb,
+                              'stderr_faults': 1, 'threads': 2}, 'split': 16})
+        js.append({'name': 'task failure while terminal writes fail (%s) n=1' % verb, 'harness': (H, 'h_sched'),
+                   'params': {'n': 1, 'inputs': ['F0.txtpp'], 'acyclic_only': True, 'allow_self': False, 'fail_budget': 1, 'verbosity': verb,
+                              'stderr_faults': 1, 'threads': 1}})
     js.append({'name': 'two task failures n=3', 'harness': (H, 'h_sched'),
                'params': {'n': 3, 'inputs': ['.'], 'acyclic_only': True, 'allow_self': False, 'fail_budget': 2}, 'split': 16})
     return js
@@ -502,7 +521,14 @@ def replay(native, v):
             t0 = time.time()
             try:
                 rflag = ['-r'] if d.get('recursive') else []
-                r = subprocess.run([cli, '-q', '-j', str(threads)] + rflag + list(inputs), cwd=root, capture_output=True, timeout=30)
+                vflag = {'Quiet': ['-q'], 'Normal': [], 'Verbose': ['-v']}[d.get('verbosity', 'Quiet')]
+                if d.get('stderr_faults'):
+                    # every write to the terminal fails (ENOSPC): stderr on /dev/full
+                    with open('/dev/full', 'w') as full:
+                        r = subprocess.run([cli] + vflag + ['-j', str(threads)] + rflag + list(inputs), cwd=root, stdout=subprocess.DEVNULL,
+                                           stderr=full, timeout=30)
+                else:
+                    r = subprocess.run([cli] + vflag + ['-j', str(threads)] + rflag + list(inputs), cwd=root, capture_output=True, timeout=30)
                 rc = r.returncode
             except subprocess.TimeoutExpired:
                 rc = 'HANG'
